@@ -543,17 +543,20 @@ structure SetRelPost (w : World) (fl : List Nat) (e : Ent) (rels : List RelID) (
   tablesLen : w'.tables.length ≤ w.tables.length + 1
   entitiesLen : w'.entities.length = w.entities.length
 
-/-- **C04, assignment**: an accepted `setRelations e rels` for a live entity `e` that has the
-    relation components named (none twice), no observers: all invariants are kept, `e` has the
-    targets named, keeps its other targets, components and values, no other entity changes. -/
-theorem setRelationsCore_spec (run : ProbeRunner) {w : World} {fl : List Nat} (h : TInv w fl)
+/-- the two halves of `setRelationsCore_valid` / `setRelationsCore_spec` in one proof: an accepted
+    call named only zero or alive targets (whatever their IDs), and — if the IDs of the targets lie
+    inside the pool slice — `SetRelPost` -/
+theorem setRelationsCore_core (run : ProbeRunner) {w : World} {fl : List Nat} (h : TInv w fl)
     (hl : w.isLocked = false) (hno : ∀ (evt : Nat), w.obs.hasObservers evt = false) {e : Ent}
-    (h2 : 2 ≤ e.id) (hnf : e.id ∉ fl) (ha : w.alive e = true) {rels : List RelID}
+    (h2 : 2 ≤ e.id) (hnf : e.id ∉ fl) (ha : w.alive e = true) (hin : e.id < w.pool.ents.length)
+    {rels : List RelID}
     (hne : rels.isEmpty = false) (hnd : (rels.map (·.comp)).Nodup)
     (hhas : ∀ (r : RelID), r ∈ rels → (targetOf w e.id r.comp).isSome = true)
     (hfew : w.tables.length < maxU32) (hrows : w.entities.length + 1 < 2 ^ 32)
-    {w' : World} (hok : setRelationsCore run e rels w = .ok () w') : SetRelPost w fl e rels w' := by
-  obtain ⟨oldT, row, he, htm, _⟩ := h.link.live_entry h2 hnf ha
+    {w' : World} (hok : setRelationsCore run e rels w = .ok () w') :
+    (∀ (r : RelID), r ∈ rels → r.target.isZero = true ∨ w.alive r.target = true) ∧
+    ((∀ (r : RelID), r ∈ rels → r.target.id < w.pool.ents.length) → SetRelPost w fl e rels w') := by
+  obtain ⟨oldT, row, he, htm, _⟩ := h.link.live_entry h2 hnf ha hin
   have hix := index_of_get he
   have hI := h.link.idx
   obtain ⟨hT, hrow, hid⟩ := hI.indexed he htm
@@ -608,19 +611,21 @@ theorem setRelationsCore_spec (run : ProbeRunner) {w : World} {fl : List Nat} (h
       intro r hr
       obtain ⟨i, hi, hir⟩ := hcols r hr
       rw [targetOf_of_entry he htm hT, Table.targetAt_of_col hi hir, ← hts r hr i hi, heq]
-    refine
+    have hv0 : ∀ (r : RelID), r ∈ rels → r.target.isZero = true ∨ w.alive r.target = true := by
+      intro r hr
+      obtain ⟨i, hi, hir⟩ := hcols r hr
+      have := h.rel.aux.targets oldT _ hT hTf i hir
+      rw [← heq, hts r hr i hi] at this
+      exact this
+    refine ⟨hv0, fun _ => ?_⟩
+    exact
       { tinv := h, aliveSame := fun _ => rfl
-        valid := ?_
+        valid := hv0
         targets := htof
         otherTargets := fun _ _ => rfl
         self := ⟨fun _ => rfl, rfl⟩
         frame := fun _ _ => ⟨⟨fun _ => rfl, rfl⟩, fun _ => rfl⟩
         obs := rfl, locks := rfl, kinds := rfl, tablesLen := Nat.le_succ _, entitiesLen := rfl }
-    intro r hr
-    obtain ⟨i, hi, hir⟩ := hcols r hr
-    have := h.rel.aux.targets oldT _ hT hTf i hir
-    rw [← heq, hts r hr i hi] at this
-    exact this
   | true =>
     simp only [if_true] at hx
     obtain ⟨r1, hr1, i1, hi1, hne1⟩ := htrue rfl
@@ -714,12 +719,13 @@ theorem setRelationsCore_spec (run : ProbeRunner) {w : World} {fl : List Nat} (h
         have := hvalid i hir
         rw [hts r hr i hi] at this
         exact this
+      refine ⟨hvalidR, fun htin => ?_⟩
       have hflag3 : FlagsOK (registerW (addMove w1 e oldT row nt (w1.arch (w.tbl oldT).arch).mask) rels) := by
         apply hflag2.register
         intro r hr hz
         rcases hvalidR r hr with k | k
         · rw [k] at hz; cases hz
-        · have := h.link.alive_lt k
+        · have := h.link.lt_of_in (htin r hr)
           rw [fu.isTarget, cg.isTarget, h.link.tgtLen]
           exact this
       have hfree3 : FreeEmpty (registerW (addMove w1 e oldT row nt (w1.arch (w.tbl oldT).arch).mask) rels) := by
@@ -876,12 +882,59 @@ theorem setRelationsCore_spec (run : ProbeRunner) {w : World} {fl : List Nat} (h
           exact Table.targetAt_sameMeta ((ms12.trans ms23).tmeta oldT hlt1) c
         · exact (ms12.trans ms23).targetOf (by rw [hE3]; exact hLj) c
 
+/-- **an accepted `setRelations e rels` named only zero or alive targets** (no condition on the
+    IDs of the targets) -/
+theorem setRelationsCore_valid (run : ProbeRunner) {w : World} {fl : List Nat} (h : TInv w fl)
+    (hl : w.isLocked = false) (hno : ∀ (evt : Nat), w.obs.hasObservers evt = false) {e : Ent}
+    (h2 : 2 ≤ e.id) (hnf : e.id ∉ fl) (ha : w.alive e = true) (hin : e.id < w.pool.ents.length)
+    {rels : List RelID}
+    (hne : rels.isEmpty = false) (hnd : (rels.map (·.comp)).Nodup)
+    (hhas : ∀ (r : RelID), r ∈ rels → (targetOf w e.id r.comp).isSome = true)
+    (hfew : w.tables.length < maxU32) (hrows : w.entities.length + 1 < 2 ^ 32)
+    {w' : World} (hok : setRelationsCore run e rels w = .ok () w') :
+    ∀ (r : RelID), r ∈ rels → r.target.isZero = true ∨ w.alive r.target = true :=
+  (setRelationsCore_core run h hl hno h2 hnf ha hin hne hnd hhas hfew hrows hok).1
+
+/-- **C04, assignment**: an accepted `setRelations e rels` for a live entity `e` (ID inside the
+    pool slice) that has the relation components named (none twice), with targets whose IDs lie
+    inside the pool slice, no observers: all invariants are kept, `e` has the targets named, keeps
+    its other targets, components and values, no other entity changes. -/
+theorem setRelationsCore_spec (run : ProbeRunner) {w : World} {fl : List Nat} (h : TInv w fl)
+    (hl : w.isLocked = false) (hno : ∀ (evt : Nat), w.obs.hasObservers evt = false) {e : Ent}
+    (h2 : 2 ≤ e.id) (hnf : e.id ∉ fl) (ha : w.alive e = true) (hin : e.id < w.pool.ents.length)
+    {rels : List RelID}
+    (hne : rels.isEmpty = false) (hnd : (rels.map (·.comp)).Nodup)
+    (hhas : ∀ (r : RelID), r ∈ rels → (targetOf w e.id r.comp).isSome = true)
+    (htin : ∀ (r : RelID), r ∈ rels → r.target.id < w.pool.ents.length)
+    (hfew : w.tables.length < maxU32) (hrows : w.entities.length + 1 < 2 ^ 32)
+    {w' : World} (hok : setRelationsCore run e rels w = .ok () w') : SetRelPost w fl e rels w' :=
+  (setRelationsCore_core run h hl hno h2 hnf ha hin hne hnd hhas hfew hrows hok).2 htin
+
+/-- an accepted `SetRelations` (any path) named only zero or alive targets -/
+theorem opSetRelations_valid (run : ProbeRunner) (p : Path) {w : World} {fl : List Nat}
+    (h : TInv w fl) (hl : w.isLocked = false) (hno : ∀ (evt : Nat), w.obs.hasObservers evt = false)
+    {e : Ent} (h2 : 2 ≤ e.id) (hnf : e.id ∉ fl) (ha : w.alive e = true)
+    (hin : e.id < w.pool.ents.length) {mapperIds : List Comp}
+    {rels : List RelID} (hne : rels.isEmpty = false) (hnd : (rels.map (·.comp)).Nodup)
+    (hhas : ∀ (r : RelID), r ∈ rels → (targetOf w e.id r.comp).isSome = true)
+    (hfew : w.tables.length < maxU32) (hrows : w.entities.length + 1 < 2 ^ 32)
+    {w' : World} (hok : opSetRelations run p e mapperIds rels w = .ok () w') :
+    ∀ (r : RelID), r ∈ rels → r.target.isZero = true ∨ w.alive r.target = true := by
+  have hpre : preCheck p mapperIds rels w = .ok () w := by
+    rcases preCheck_cases p mapperIds rels w with h1 | ⟨k, h1⟩
+    · exact h1
+    · simp [opSetRelations, bind, M.bind, h1] at hok
+  simp only [opSetRelations, bind, M.bind, hpre] at hok
+  exact setRelationsCore_valid run h hl hno h2 hnf ha hin hne hnd hhas hfew hrows hok
+
 /-- **C04, assignment through the API** (`SetRelations` on any path) -/
 theorem opSetRelations_spec (run : ProbeRunner) (p : Path) {w : World} {fl : List Nat}
     (h : TInv w fl) (hl : w.isLocked = false) (hno : ∀ (evt : Nat), w.obs.hasObservers evt = false)
-    {e : Ent} (h2 : 2 ≤ e.id) (hnf : e.id ∉ fl) (ha : w.alive e = true) {mapperIds : List Comp}
+    {e : Ent} (h2 : 2 ≤ e.id) (hnf : e.id ∉ fl) (ha : w.alive e = true)
+    (hin : e.id < w.pool.ents.length) {mapperIds : List Comp}
     {rels : List RelID} (hne : rels.isEmpty = false) (hnd : (rels.map (·.comp)).Nodup)
     (hhas : ∀ (r : RelID), r ∈ rels → (targetOf w e.id r.comp).isSome = true)
+    (htin : ∀ (r : RelID), r ∈ rels → r.target.id < w.pool.ents.length)
     (hfew : w.tables.length < maxU32) (hrows : w.entities.length + 1 < 2 ^ 32)
     {w' : World} (hok : opSetRelations run p e mapperIds rels w = .ok () w') :
     SetRelPost w fl e rels w' := by
@@ -890,7 +943,7 @@ theorem opSetRelations_spec (run : ProbeRunner) (p : Path) {w : World} {fl : Lis
     · exact h1
     · simp [opSetRelations, bind, M.bind, h1] at hok
   simp only [opSetRelations, bind, M.bind, hpre] at hok
-  exact setRelationsCore_spec run h hl hno h2 hnf ha hne hnd hhas hfew hrows hok
+  exact setRelationsCore_spec run h hl hno h2 hnf ha hin hne hnd hhas htin hfew hrows hok
 
 /-- **rejection** (typed paths): `SetRelations` naming a dead target is refused with
     `deadTarget`, the world unchanged -/
@@ -990,12 +1043,13 @@ theorem relGet_total {w : World} {a tid : Nat} {ts' : List Ent} (hR : RelInv w)
     twice, targets zero or alive, no observers -/
 theorem setRelationsCore_total (run : ProbeRunner) {w : World} {fl : List Nat} (h : TInv w fl)
     (hl : w.isLocked = false) (hno : ∀ (evt : Nat), w.obs.hasObservers evt = false) {e : Ent}
-    (h2 : 2 ≤ e.id) (hnf : e.id ∉ fl) (ha : w.alive e = true) {rels : List RelID}
+    (h2 : 2 ≤ e.id) (hnf : e.id ∉ fl) (ha : w.alive e = true) (hin : e.id < w.pool.ents.length)
+    {rels : List RelID}
     (hne : rels.isEmpty = false) (hnd : (rels.map (·.comp)).Nodup)
     (hhas : ∀ (r : RelID), r ∈ rels → (targetOf w e.id r.comp).isSome = true)
     (hval : ∀ (r : RelID), r ∈ rels → r.target.isZero = true ∨ w.alive r.target = true) :
     ∃ (w' : World), setRelationsCore run e rels w = .ok () w' := by
-  obtain ⟨oldT, row, he, htm, _⟩ := h.link.live_entry h2 hnf ha
+  obtain ⟨oldT, row, he, htm, _⟩ := h.link.live_entry h2 hnf ha hin
   have hix := index_of_get he
   obtain ⟨hT, hrow, _⟩ := h.link.idx.indexed he htm
   have hlt := lt_of_get hT
@@ -1060,6 +1114,7 @@ theorem Good.setRelations (run : ProbeRunner) (p : Path) {w : World} (h : Good w
     {mapperIds : List Comp} {rels : List RelID} (hne : rels.isEmpty = false)
     (hnd : (rels.map (·.comp)).Nodup)
     (hhas : ∀ (r : RelID), r ∈ rels → (targetOf w e.id r.comp).isSome = true)
+    (htin : ∀ (r : RelID), r ∈ rels → r.target.id < w.pool.ents.length)
     (hfew : w.tables.length < maxU32) (hrows : w.entities.length + 1 < 2 ^ 32)
     (hnp : panicOf (opSetRelations run p e mapperIds rels w) = none) :
     Good (opSetRelations run p e mapperIds rels w).state := by
@@ -1069,7 +1124,8 @@ theorem Good.setRelations (run : ProbeRunner) (p : Path) {w : World} (h : Good w
       Option.getD_some]
   obtain ⟨h2, hnf⟩ := ht.link.indexed_live hent hidx
   obtain ⟨u, hr⟩ := ok_of_panicOf hnp
-  have post := opSetRelations_spec run p ht hl hno h2 hnf ha hne hnd hhas hfew hrows hr
+  have post := opSetRelations_spec run p ht hl hno h2 hnf ha
+    (by rw [← ht.link.lenEq]; exact hlt) hne hnd hhas htin hfew hrows hr
   exact ⟨fl, post.tinv, by show (opSetRelations run p e mapperIds rels w).state.locks.isLocked = false
                            rw [post.locks]; exact hl,
     fun evt => by rw [post.obs]; exact hno evt⟩
